@@ -406,7 +406,8 @@ def _chain_has(exc, cls):
     return False
 
 
-def translate(exe, query, outdir, ld=False, io_plan=None, abort_plan=None, extra_seam=None, stream_cache=None):
+def translate(exe, query, outdir, ld=False, io_plan=None, abort_plan=None, extra_seam=None, stream_cache=None, apply_only=False,
+              wipe_registries_after=False):
     """Run one translation with the real executor. Returns a JSON-able outcome."""
     from pathlib import Path
     n0 = len(_generated)
@@ -432,6 +433,16 @@ def translate(exe, query, outdir, ld=False, io_plan=None, abort_plan=None, extra
             if ld:
                 from func_adl_xAOD.common.local_dataset import DockerImageSpecification
                 exe.add_extended_md({"docker": DockerImageSpecification("dataset/image:tag")})
+            if apply_only:
+                # the caller only ran the first phase (validation, hashing, ...) and never asked for the package
+                exe.apply_ast_transformations(a)
+                if wipe_registries_after:
+                    # attribution re-run only (engine.execute): does the difference come from what the abandoned
+                    # translation left in the two process-wide registries, or from something else?
+                    import func_adl_xAOD.common.cpp_types as ctyp
+                    ctyp.g_method_type_dict = {}
+                    ctyp.g_toplevel_ns = {}
+                return {"outcome": "abandoned", "lines": 0, "io_calls": []}
             info = exe.write_cpp_files(exe.apply_ast_transformations(a), outdir)
         finally:
             for s in reversed(seams):
@@ -490,6 +501,8 @@ def digest_outcome(o):
     """Short comparable form (for logs)."""
     if o["outcome"] == "raise":
         return {"outcome": "raise", "type": o["type"], "msg": hashlib.sha256(o["msg"].encode()).hexdigest()[:10]}
+    if o["outcome"] == "abandoned":
+        return {"outcome": "abandoned"}
     h = hashlib.sha256()
     for fn in o["all_filenames"]:
         h.update(fn.encode())
@@ -530,6 +543,15 @@ def abstract_state(slots):
     import func_adl_xAOD.common.cpp_types as ctyp
     from func_adl_xAOD.common.executor import executor
 
+    # a measure only, never an oracle: it reads private attributes and must not fail the run when a tree under test
+    # has renamed or dropped one of them
+    try:
+        return _abstract_state(slots, ctyp, executor)
+    except Exception:  # noqa
+        return "state-not-readable"
+
+
+def _abstract_state(slots, ctyp, executor):
     reg = sorted((t, m, str(i.r_type), i.deref_depth) for t, d in ctyp.g_method_type_dict.items() for m, i in d.items())
 
     def ns_tree(ns):
